@@ -189,8 +189,13 @@ def _history_(g, seed, indent):
             return Lark(INDENT_G, parser='lalr', lexer=rng.choice(['basic', 'contextual']) if False else 'basic', postlex=Ind())
         if cache:
             return Lark(g, parser='lalr', cache=cpath, **(kw if kw_ is None else kw_))
-        return Lark(g, parser='lalr', **(kw if kw_ is None else kw_))
+        return Lark(g, parser=engine, **(kw if kw_ is None else kw_))
     kw = dict(lexer=rng.choice(['basic', 'contextual']), propagate_positions=rng.random() < 0.5) if not cached else dict(rng.choice(CACHE_VARIANTS))
+    engine = 'lalr'
+    if not indent and not cached and rng.random() < 0.3:
+        # an Earley instance reused across calls (its chart, items and forest transformer are per-parse objects)
+        engine = 'earley'
+        kw = dict(lexer=rng.choice(['basic', 'dynamic', 'dynamic_complete']), ambiguity=rng.choice(['resolve', 'explicit']), propagate_positions=rng.random() < 0.5)
     try:
         with guarded(6):
             shared = mk(cache=cached)
@@ -205,6 +210,8 @@ def _history_(g, seed, indent):
             s = 'a'
         if rng.random() < 0.35 and s:
             k = rng.randrange(len(s)); s = s[:k] + rng.choice('abcx(') + s[k + 1:]
+        if rng.random() < 0.15:
+            s = rng.choice(['', ' ', ''])          # the empty text (and ignored characters only) after other calls
         return s
     def canon(t):
         if isinstance(t, Tree): return [str(t.data), [canon(c) for c in t.children]]
@@ -244,6 +251,8 @@ def _history_(g, seed, indent):
         except AssertionError:
             return ['AssertionError']
     ops = ['parse', 'lex', 'interactive', 'lex_dont_ignore'] + ([] if indent else ['scan'])
+    if engine == 'earley':
+        ops = ['parse', 'parse'] + (['lex'] if kw['lexer'] == 'basic' else [])
     hist, failures, keep = [], [], []
     with guarded(40):
         for step in range(rng.randint(3, 9)):
